@@ -630,6 +630,9 @@ func (a Int) M__complex__() (Object, error) {
 }
 
 func (a Int) M__round__(digits Object) (Object, error) {
+	if digits == None {
+		return a, nil
+	}
 	if b, ok := convertToInt(digits); ok {
 		if b >= 0 {
 			return a, nil
@@ -647,8 +650,8 @@ func (a Int) M__round__(digits Object) (Object, error) {
 		scale := Int(math.Pow(10, float64(-b)))
 		digits := r % scale
 		r -= digits
-		// Round
-		if 2*digits >= scale {
+		// Round half to even
+		if 2*digits > scale || (2*digits == scale && (r/scale)%2 == 1) {
 			r += scale
 		}
 		if negative {
